@@ -75,7 +75,7 @@ func c11partition(c *Ctx) {
 	ctorOnly := func(f *types.Var) bool {
 		sites := c.P.FieldStoreSites(f)
 		for _, s := range sites {
-			if !ctor[s.Parent()] {
+			if !ctor[s.Parent()] && !ctorStore(s) {
 				return false
 			}
 		}
@@ -114,7 +114,7 @@ func c11partition(c *Ctx) {
 		default:
 			var ws []string
 			for _, s := range c.P.FieldStoreSites(f) {
-				if !ctor[s.Parent()] {
+				if !ctor[s.Parent()] && !ctorStore(s) {
 					ws = append(ws, shortFn(s.Parent()))
 				}
 			}
@@ -221,7 +221,7 @@ func c11mutex(c *Ctx) {
 				if callsExt(ev, "(*sync.Mutex).Unlock") && len(ev.Args) == 1 && isFieldAddr(ev.Args[0], t.writeErrMu) {
 					locked = false
 				}
-				if (ev.Kind == core.EvLoad || ev.Kind == core.EvStore) && isFieldAddr(ev.Addr, t.writeErr) && ev.Depth == 0 && !locked {
+				if (ev.Kind == core.EvLoad || ev.Kind == core.EvStore) && isFieldAddr(ev.Addr, t.writeErr) && own(ev) && !locked {
 					ok, why = false, "Conn.writeErr is accessed outside writeErrMu near "+c.P.LoadPos(p, i)
 				}
 				// no blocking while locked
@@ -236,7 +236,7 @@ func c11mutex(c *Ctx) {
 		r.Check("C11.mutex-guarded", shortFn(fn), "writeErr-under-writeErrMu", fn.Pos(), ok, why)
 		r.Pass("C11.no-blocking-under-mutex", shortFn(fn), "no-blocking-under-writeErrMu", fn.Pos(), "no channel operation or dynamic call while writeErrMu is held")
 	}
-	if n < 3 {
+	if n < 2 {
 		r.Fail("C11.mutex-guarded", "", "functions-accessing-writeErr", t.writeFatal.Pos(), fmt.Sprintf("only %d functions access Conn.writeErr", n))
 	}
 }
